@@ -1,9 +1,19 @@
 #!/bin/bash
-# rebuilds the explorer against /repo's current working tree (hooks on: -tags verif)
+# rebuilds the explorer against the repository's current working tree (hooks on: -tags verif)
+# VERIF_REPO (default /repo) selects the tree; a non-default tree gets its own binary + modfile under scratch/.
 set -eu
 VERIF=$(cd "$(dirname "$0")" && pwd)
 source "$VERIF/env.sh"
+REPO=${VERIF_REPO:-/repo}
 mkdir -p "$VERIF/bin" "$VERIF/evidence" "$VERIF/replays"
 cd "$VERIF/mc"
-cp /repo/go.sum ./go.sum
-$GO build -tags verif -o "$VERIF/bin/verifmc" .
+if [ "$REPO" = /repo ]; then
+  cp /repo/go.sum ./go.sum
+  $GO build -tags verif -o "$VERIF/bin/verifmc" .
+else
+  tag=$(echo "$REPO" | tr '/' '_')
+  mkdir -p "$VERIF/scratch/$tag"
+  sed "s#=> /repo#=> $REPO#" go.mod > "$VERIF/scratch/$tag/go.mod"
+  cp "$REPO/go.sum" "$VERIF/scratch/$tag/go.sum"
+  $GO build -modfile="$VERIF/scratch/$tag/go.mod" -tags verif -o "$VERIF/scratch/$tag/verifmc" .
+fi
